@@ -15,57 +15,63 @@ every entry (driver `ircperm`), and the real code twice, on the same histories.
 namespace Robust.Props.C01
 open Robust Robust.Irc
 
-/-- expected classification of every map `range` (derived by reading the code once; a new site, a
-changed ranged expression or a changed body shape makes `C01_sites` fail; `carry(x)` = the body writes\nthe variable `x` that lives across iterations, other than by `x = append(x, …)`; `collect+sort` = the very slice\nthe body appended to is sorted after the loop) -/
-def expectedSites : List (String × String × String) := [
-  ("internal/ircserver:IRCServer.ExpireSessions", "i.sessions", "collect+calls(time.Since)"),       -- not on the apply path: proposal order only
-  ("internal/ircserver:IRCServer.GetSessions", "i.sessions", "mapwrite+calls(make)"),                 -- status page copy (not on the apply path)
-  ("internal/ircserver:IRCServer.GetSessions", "session.Channels", "mapwrite"),                       -- copies into a fresh map
-  ("internal/ircserver:IRCServer.GetSessions", "session.invitedTo", "mapwrite"),
-  ("internal/ircserver:IRCServer.Marshal", "channel.nicks", "collect+mapwrite+calls(rune)"),         -- written into a proto map
-  ("internal/ircserver:IRCServer.Marshal", "i.channels", "collect+mapwrite+calls(b.re.String,make,rune,timeToTimestamp)"),
-  ("internal/ircserver:IRCServer.Marshal", "i.sessions", "collect+calls(int64,make,timeToTimestamp)"),  -- repeated field; Unmarshal inserts into maps with distinct keys
-  ("internal/ircserver:IRCServer.Marshal", "i.svsholds", "mapwrite+calls(svshold.duration.String,timeToTimestamp)"),
-  ("internal/ircserver:IRCServer.Marshal", "session.Channels", "collect"),
-  ("internal/ircserver:IRCServer.Marshal", "session.invitedTo", "collect"),
-  ("internal/ircserver:IRCServer.MaybeDeleteSession", "i.sessions", "delete"),                        -- each: independent per element
-  ("internal/ircserver:IRCServer.Unmarshal", "c.Nicks", "mapwrite"),
-  ("internal/ircserver:IRCServer.Unmarshal", "snapshot.Svsholds", "exit+mapwrite+calls(time.ParseDuration,timestampToTime)"),  -- exit only on a corrupt snapshot
-  ("internal/ircserver:IRCServer.cmdList", "i.channels", "collect+sort"),
-  ("internal/ircserver:IRCServer.cmdMode", "seen", "collect+sort"),
-  ("internal/ircserver:IRCServer.cmdNames", "c.nicks", "collect+sort"),
-  ("internal/ircserver:IRCServer.cmdNick", "i.channels", "mapwrite+delete"),                          -- each: re-key one member per channel
-  ("internal/ircserver:IRCServer.cmdPrivmsg", "session.Channels", "exit+carry(common)"),              -- any: existence test (the flag is only ever set to true)
-  ("internal/ircserver:IRCServer.cmdServerKill", "i.sessions", "exit+carry(killPrefix)"),             -- uniq: at most one pseudo-client owns the nick
-  ("internal/ircserver:IRCServer.cmdServerQuit", "i.sessions", "collect+sort"),
-  ("internal/ircserver:IRCServer.cmdServerQuit", "i.sessions", "emit+exit+calls(i.deleteSessionLocked,msg.Trailing)"),  -- uniq: at most one owner of the prefix nick
-  ("internal/ircserver:IRCServer.cmdServerSvsnick", "i.channels", "mapwrite+delete"),
-  ("internal/ircserver:IRCServer.cmdServer", "i.nicks", "collect+sort"),
-  ("internal/ircserver:IRCServer.cmdServer", "session.Channels", "collect+sort"),
-  ("internal/ircserver:IRCServer.cmdServiceAlias", "aliases", "emit+exit+calls(irc.ParseMessage)"),  -- uniq: distinct literal keys
-  ("internal/ircserver:IRCServer.cmdWhois", "session.Channels", "collect+sort"),
-  ("internal/ircserver:IRCServer.cmdWho", "c.nicks", "collect+sort"),
-  ("internal/ircserver:IRCServer.deleteSessionLocked", "i.channels", "delete+calls(i.maybeDeleteChannelLocked)"),
-  ("internal/ircserver:IRCServer.maybeDeleteChannelLocked", "i.sessions", "delete"),
-  ("internal/ircserver:IRCServer.sendAllUsers", "i.nicks", "mapwrite"),                                -- set: recipients
-  ("internal/ircserver:IRCServer.sendChannelButOne", "c.nicks", "mapwrite"),
-  ("internal/ircserver:IRCServer.sendChannel", "c.nicks", "mapwrite"),
-  ("internal/ircserver:IRCServer.sendCommonChannels", "c.nicks", "mapwrite"),
-  ("internal/ircserver:IRCServer.sendCommonChannels", "user.Channels", "mapwrite"),
-  ("internal/outputstream:OutputStream.getUnlocked", "os.messagesCache", "exit+delete"),             -- cache eviction: node-local
-  ("internal/outputstream:messageBatch.marshal", "msg.InterestingFor", "carry(n)+calls(binary.LittleEndian.PutUint64,uint64)"),  -- byte order of a set (C18); `n` is the write offset
-  ("main:FSM.Snapshot", "fsm.lastSnapshotState", "carry(ok,stateIndex)"),                            -- maximum of the keys below the horizon
-  ("main:FSM.Snapshot", "fsm.lastSnapshotState", "delete")
+/-- expected classification of every map `range`: (what is ranged over, body shape), derived by reading the
+code once.  What is ranged over is named by the field and its type (independent of variable names and of the
+function the loop sits in, so that renaming or moving a loop into a helper changes nothing); a new site, a
+different ranged map or a changed body shape makes `C01_sites` fail.  Shapes: `collect+sort` = the very slice
+the body appended to is sorted after the loop; `carry(T)` = the body writes a variable of type `T` that lives
+across iterations, other than by `x = append(x, …)`; `mapwrite` = writes under the loop's own keys; `emit` =
+sends output; `exit` = leaves the loop early; `calls(f)` = calls a function of the package that itself has
+effects (callees that only compute are not listed). -/
+def expectedSites : List (String × String) := [
+  ("ircserver.IRCServer.channels", "collect+mapwrite"),                  -- Marshal: written into a proto map
+  ("ircserver.IRCServer.channels", "collect+sort"),                      -- LIST
+  ("ircserver.IRCServer.channels", "delete+calls(maybeDeleteChannelLocked)"),  -- deleteSessionLocked: each, independent per channel
+  ("ircserver.IRCServer.channels", "mapwrite+delete"),                   -- NICK: re-key one member per channel
+  ("ircserver.IRCServer.channels", "mapwrite+delete"),                   -- SVSNICK: the same
+  ("ircserver.IRCServer.nicks", "collect+sort"),                         -- netburst
+  ("ircserver.IRCServer.nicks", "mapwrite"),                             -- set: recipients (sendAllUsers)
+  ("ircserver.IRCServer.sessions", "collect+sort"),                      -- server QUIT
+  ("ircserver.IRCServer.sessions", "collect"),                           -- ExpireSessions: not on the apply path, proposal order only
+  ("ircserver.IRCServer.sessions", "collect"),                           -- Marshal: repeated field; Unmarshal inserts under distinct keys
+  ("ircserver.IRCServer.sessions", "delete"),                            -- MaybeDeleteSession: each
+  ("ircserver.IRCServer.sessions", "delete"),                            -- maybeDeleteChannelLocked: each
+  ("ircserver.IRCServer.sessions", "emit+exit+calls(deleteSessionLocked)"),  -- server QUIT, uniq: at most one owner of the prefix nick
+  ("ircserver.IRCServer.sessions", "exit+carry(*irc.Prefix)"),           -- server KILL, uniq: at most one pseudo-client owns the nick
+  ("ircserver.IRCServer.sessions", "mapwrite"),                          -- GetSessions: status page copy (not on the apply path)
+  ("ircserver.IRCServer.svsholds", "mapwrite"),                          -- Marshal
+  ("ircserver.Session.Channels", "collect+sort"),                        -- netburst
+  ("ircserver.Session.Channels", "collect+sort"),                        -- WHOIS
+  ("ircserver.Session.Channels", "collect"),                             -- Marshal
+  ("ircserver.Session.Channels", "exit+carry(bool)"),                    -- PRIVMSG, any: existence test (the flag is only ever set to true)
+  ("ircserver.Session.Channels", "mapwrite"),                            -- GetSessions: copies into a fresh map
+  ("ircserver.Session.Channels", "mapwrite"),                            -- set: recipients (sendCommonChannels)
+  ("ircserver.Session.invitedTo", "collect"),                            -- Marshal
+  ("ircserver.Session.invitedTo", "mapwrite"),                           -- GetSessions
+  ("ircserver.channel.nicks", "collect+mapwrite"),                       -- Marshal
+  ("ircserver.channel.nicks", "collect+sort"),                           -- NAMES
+  ("ircserver.channel.nicks", "collect+sort"),                           -- WHO
+  ("ircserver.channel.nicks", "mapwrite"),                               -- set: recipients (sendChannel)
+  ("ircserver.channel.nicks", "mapwrite"),                               -- set: recipients (sendChannelButOne)
+  ("ircserver.channel.nicks", "mapwrite"),                               -- set: recipients (sendCommonChannels)
+  ("local:map[string]string", "emit+exit"),                              -- service aliases, uniq: distinct literal keys
+  ("main.FSM.lastSnapshotState", "carry(bool,uint64)"),                  -- maximum of the keys below the horizon
+  ("main.FSM.lastSnapshotState", "delete"),
+  ("make(map[string]bool)", "collect+sort"),                             -- MODE: mode letters seen
+  ("outputstream.Message.InterestingFor", "carry(int)"),                 -- byte order of a set (C18); the int is the write offset
+  ("outputstream.OutputStream.messagesCache", "exit+delete"),            -- cache eviction: node-local
+  ("proto.Snapshot.Svsholds", "exit+mapwrite"),                          -- Unmarshal; exit only on a corrupt snapshot
+  ("proto.Snapshot_Channel.Nicks", "mapwrite")                           -- Unmarshal
 ]
 
 /-- regenerated: the map `range` sites of the source are exactly the classified ones -/
-theorem C01_sites : Gen.Ranges.mapRanges = expectedSites := by decide
+theorem C01_sites : Gen.Ranges.mapRanges.map (fun s => (s.2.1, s.2.2)) = expectedSites := by decide
 
 /-- no site on the apply path emits output inside a map iteration, except the two early-exit
 lookups whose match is unique -/
 theorem C01_no_emit_in_range :
-    (Gen.Ranges.mapRanges.filter (fun s => hasPrefix s.2.2 "emit")).map (·.1) =
-      ["internal/ircserver:IRCServer.cmdServerQuit", "internal/ircserver:IRCServer.cmdServiceAlias"] := by decide
+    (Gen.Ranges.mapRanges.filter (fun s => hasPrefix s.2.2 "emit")).map (·.2.1) =
+      ["ircserver.IRCServer.sessions", "local:map[string]string"] := by decide
 
 /-- regenerated: the clock, the environment, goroutines and `select` are used only outside the
 apply path: the expiry sweep and throttling (API side), the PANIC test switch at start-up, the
@@ -143,5 +149,57 @@ theorem C01_map_perm {α β : Type} (f : α → β) (l₁ l₂ : List α) (h : l
 from the entry, replies are numbered 1, 2, … by a counter) -/
 theorem C01_reply_ids (c : Ctx) (m : IrcMsg) (rc : List Nat) :
     (emit c m rc).out = c.out ++ [⟨c.msgid, c.replyid + 1, m.render, rc⟩] ∧ (emit c m rc).replyid = c.replyid + 1 := ⟨rfl, rfl⟩
+
+/-! ## non-vacuity
+
+Every theorem above that has hypotheses, instantiated on concrete data on which all hypotheses hold together
+(two different iteration orders of the same map contents). -/
+namespace Ex
+/-- the channel keys of a map in two iteration orders -/
+def l₁ : List String := ["#b", "#a", "#c", "#a0"]
+def l₂ : List String := ["#c", "#a0", "#b", "#a"]
+theorem perm12 : l₁.Perm l₂ := by decide
+theorem sorted1 : l₁.mergeSort (fun a b => a ≤ b) = ["#a", "#a0", "#b", "#c"] := by
+  simp [l₁, List.mergeSort, List.MergeSort.Internal.splitInTwo, List.splitAt, List.splitAt.go]
+/-- (session id, lower-cased nick) of three sessions; the nicks are distinct -/
+def sess : List (Nat × String) := [(1, "alice"), (9, "chanserv"), (5, "bob")]
+/-- another iteration order of the same sessions -/
+def sess' : List (Nat × String) := [(5, "bob"), (1, "alice"), (9, "chanserv")]
+theorem permS : sess.Perm sess' := by decide
+/-- an (inconsistent) pair of sessions that share a nick: what `huniq` of `C01_find_unique` excludes -/
+def dup : List (Nat × String) := [(1, "bob"), (5, "bob")]
+end Ex
+
+/-- `C01_sort_perm`: the two orders are different lists, permutations of each other, and sort to the same list -/
+example : Ex.l₁ ≠ Ex.l₂ ∧ Ex.l₂.mergeSort (fun a b => a ≤ b) = ["#a", "#a0", "#b", "#c"] :=
+  ⟨by decide, (C01_sort_perm Ex.l₁ Ex.l₂ Ex.perm12).symm.trans Ex.sorted1⟩
+
+/-- `C01_set_perm`: a recipient that is in the set and one that is not -/
+example : (7 ∈ [3, 7, 9] ↔ 7 ∈ [9, 3, 7]) ∧ (4 ∈ [3, 7, 9] ↔ 4 ∈ [9, 3, 7]) :=
+  ⟨C01_set_perm [3, 7, 9] [9, 3, 7] (by decide) 7, C01_set_perm [3, 7, 9] [9, 3, 7] (by decide) 4⟩
+
+/-- `C01_find_unique`: exactly one session carries the nick `chanserv` (so `huniq` holds, by evaluation, and not
+because nothing matches); the early-exit search finds it in both orders -/
+example : Ex.sess.find? (fun e => e.2 == "chanserv") = Ex.sess'.find? (fun e => e.2 == "chanserv") :=
+  C01_find_unique _ Ex.sess Ex.sess' Ex.permS (by decide)
+example : Ex.sess'.find? (fun e => e.2 == "chanserv") = some (9, "chanserv") := by decide
+/-- … and `huniq` is needed: with two matching elements it fails and the two orders give different answers -/
+example : ¬ (∀ a ∈ Ex.dup, ∀ b ∈ Ex.dup, (fun e : Nat × String => e.2 == "bob") a = true →
+    (fun e : Nat × String => e.2 == "bob") b = true → a = b) := by decide
+example : Ex.dup.find? (fun e => e.2 == "bob") ≠ Ex.dup.reverse.find? (fun e => e.2 == "bob") := by decide
+
+/-- `C01_any_perm`: an existence test that succeeds and one that fails -/
+example : (Ex.sess.any (fun e => e.2 == "bob") = Ex.sess'.any (fun e => e.2 == "bob")) ∧
+    (Ex.sess.any (fun e => e.2 == "carol") = Ex.sess'.any (fun e => e.2 == "carol")) :=
+  ⟨C01_any_perm _ Ex.sess Ex.sess' Ex.permS, C01_any_perm _ Ex.sess Ex.sess' Ex.permS⟩
+example : Ex.sess'.any (fun e => e.2 == "bob") = true ∧ Ex.sess'.any (fun e => e.2 == "carol") = false := by decide
+
+/-- `C01_filter_perm` (deleting the sessions of link 9) and `C01_map_perm` (re-keying every element) -/
+example : (Ex.sess.filter (fun e => e.1 != 9)).Perm (Ex.sess'.filter (fun e => e.1 != 9)) :=
+  C01_filter_perm _ Ex.sess Ex.sess' Ex.permS
+example : Ex.sess.filter (fun e => e.1 != 9) = [(1, "alice"), (5, "bob")] ∧
+    Ex.sess'.filter (fun e => e.1 != 9) = [(5, "bob"), (1, "alice")] := by decide
+example : (Ex.sess.map (fun e => (e.1 + 100, e.2))).Perm (Ex.sess'.map (fun e => (e.1 + 100, e.2))) :=
+  C01_map_perm _ Ex.sess Ex.sess' Ex.permS
 
 end Robust.Props.C01
